@@ -231,6 +231,9 @@ def fixed_cases() -> list[Case]:
         Case("test", ["x"], b"{ a = 1; }\n", "canonical"),              # usage
         Case("set", ["b", '"é"'], b"{ a = 1; }\n", "canonical"),
         Case("set", ["a", "-1"], b"{ a = 1; }\n", "canonical"),
+        Case("rm", [" a"], b"{ a = 1; }\n", "canonical"),              # arguments reach the library verbatim
+        Case("set", ["a ", "2"], b"{ a = 1; }\n", "canonical"),
+        Case("set", ["a", " 2\n"], b"{ a = 1; }\n", "canonical"),
     ]
     return c
 
@@ -678,6 +681,10 @@ def replay(payload: dict) -> int:
     check_cases(ctx, [c], correspondence=False)
     for chan in ("stdin", "file"):
         print(f"{chan}: argv={argv_for(c, chan, 'FILE')} ->", fmt(c.res[chan]))
+    open_known, _ = fw.load_known("C16")
+    fresh = 0
     for f in ctx.failures:
-        print("FAILS:", json.dumps(f["key"]), f["what"])
-    return 1 if ctx.failures else 0
+        hit = next((k for k in open_known if fw.key_matches(k["key"], f["key"])), None)
+        print("KNOWN-FINDING" if hit else "FAILS", json.dumps(f["key"]), f["what"])
+        fresh += hit is None
+    return 1 if fresh else 0
